@@ -712,3 +712,36 @@ Definition ex_file : fileD :=
      Msg "Later" [mkField "alpha" 1 (mref [] "Alpha") false None false] [] [] [] false].
 Example ex_file_ok : file_ok api0 ex_tab ex_file = true.
 Proof. vm_compute. reflexivity. Qed.
+
+(* ------------------------------------------------------------------ selective generation: closure of the printed references *)
+Lemma addr_eqb_eq a b : addr_eqb a b = true -> a = b.
+Proof.
+  destruct a as [p m q n], b as [p' m' q' n']. unfold addr_eqb. cbn [a_pkg a_module a_parent a_name]. intro H.
+  apply andb_prop in H. destruct H as [H Hn]. apply andb_prop in H. destruct H as [H Hq]. apply andb_prop in H. destruct H as [Hp Hm].
+  apply list_eqb_string_eq in Hp. apply list_eqb_string_eq in Hq. apply String.eqb_eq in Hm. apply String.eqb_eq in Hn. subst. reflexivity.
+Qed.
+Lemma closure_refs_emitted kept decls :
+  closed kept decls = true ->
+  forall r, In r (printed_refs kept decls) -> emitted kept r = true.
+Proof.
+  intros Hc r Hr. unfold closed in Hc. rewrite forallb_forall in Hc.
+  unfold printed_refs in Hr. apply in_flat_map in Hr. destruct Hr as [d [Hd Hr]].
+  destruct (emitted kept (fst d)) eqn:He; [|destruct Hr].
+  apply filter_In in Hr. destruct Hr as [Hr Hl].
+  pose proof (Hc d Hd) as Cd. unfold closed_at in Cd. apply andb_prop in Cd. destruct Cd as [C1 C2].
+  unfold emitted in He. rewrite He in C1. cbn [implb] in C1. rewrite C1 in C2. cbn [implb] in C2.
+  apply andb_prop in C2. destruct C2 as [_ C3]. rewrite forallb_forall in C3. pose proof (C3 r Hr) as Kr.
+  rewrite Hl in Kr. cbn [implb] in Kr.
+  unfold local_ in Hl. apply existsb_exists in Hl. destruct Hl as [d' [Hd' E]]. apply addr_eqb_eq in E. subst r.
+  pose proof (Hc d' Hd') as Cd'. unfold closed_at in Cd'. apply andb_prop in Cd'. destruct Cd' as [_ C2'].
+  rewrite Kr in C2'. cbn [implb] in C2'. apply andb_prop in C2'. destruct C2' as [T _]. exact T.
+Qed.
+Example sx_closed : closed sx_kept_fix (file_cls sx_file) = true
+  /\ printed_refs sx_kept_fix (file_cls sx_file) = [sx_a ["Third"] "Leaf"; sx_a ["Other"] "Inner"; sx_a ["Outer"] "Mid"]
+  /\ emitted sx_kept_fix (sx_a [] "DropRequest") = false.
+Proof. vm_compute. repeat split. Qed.
+(* without the hypothesis the conclusion fails: after one sweep Outer is emitted and prints Other.Inner, which is not *)
+Example sx_once_not_closed : closed sx_kept_once (file_cls sx_file) = false
+  /\ In (sx_a ["Other"] "Inner") (printed_refs sx_kept_once (file_cls sx_file))
+  /\ emitted sx_kept_once (sx_a ["Other"] "Inner") = false.
+Proof. vm_compute. repeat split. left. reflexivity. Qed.
